@@ -58,7 +58,7 @@ CaseOf(reg, mi, cls, noreply, fail) ==
   LET sh == ShapeOf(reg.iface)
       m  == sh.methods[mi]
       n  == reg.iface * 4 + mi + (IF noreply THEN 1 ELSE 0) IN
-  [iface |-> reg.iface, method |-> m.name, cls |-> cls, noreply |-> noreply, fail |-> fail,
+  [iface |-> reg.iface, method |-> m.name, cls |-> cls, noreply |-> noreply, fail |-> fail, xflags |-> (n + Len(m.ins)) % 4,
    send |-> [path   |-> CASE cls = "wrongpath" -> "/verif/nowhere"
                           [] cls = "parentpath" -> PathStr(SubSeq(reg.segs, 1, Len(reg.segs) - 1))
                           [] OTHER -> reg.path,
